@@ -31,7 +31,7 @@ def _shard(arg):
     seed, shard, n_examples, steps = arg
     rec = common.Recorder()
     holder = {}
-    M = machines.make_machine("C03Machine", NoOverCount, rec, holder, CFG=CFG, N=4, VALUES=VALUES, MAXKEY=19, draw_universe=_draw_universe)
+    M = machines.make_machine("C03Machine", NoOverCount, rec, holder, SELF_MERGE=True, CFG=CFG, N=4, VALUES=VALUES, MAXKEY=19, draw_universe=_draw_universe)
     common.run_machine(M, common.derive_seed(seed, "C03", shard), n_examples, steps, holder, rec, retry=lambda c_: machines.replay_trace(c_, NoOverCount))
     return rec
 
